@@ -319,13 +319,16 @@ pub fn run(c: &Ctx) {
     // (b) vfs.config_dir on Memfs: full cross-product (small)
     let mut cfg_cases: Vec<CfgCase> = vec![];
     for h in [None, Some("/home/u")] {
-        for x in [None, Some("/x/cfg"), Some("rel/cfg")] {
+        // also values that coincide with an entry of XDG_CONFIG_DIRS: precedence must not depend on distinctness
+        for x in [None, Some("/x/cfg"), Some("rel/cfg"), Some("/l2"), Some("/l1"), Some("/etc/xdg")] {
             for l in LISTS {
                 let mut e = Env::new();
                 set(&mut e, "HOME", &h);
                 set(&mut e, "XDG_CONFIG_HOME", &x);
                 set(&mut e, "XDG_CONFIG_DIRS", l);
-                let cands = candidates(&e);
+                let mut cands = candidates(&e);
+                cands.sort();
+                cands.dedup();
                 for mask in 0..(1u32 << cands.len()) {
                     let present: Vec<String> = cands.iter().enumerate().filter(|(i, _)| mask & (1 << i) != 0).map(|(_, d)| d.clone()).collect();
                     cfg_cases.push(CfgCase { env: e.clone(), present, stdfs: false });
@@ -355,7 +358,7 @@ pub fn run(c: &Ctx) {
     let mut std_cases: Vec<CfgCase> = vec![];
     let mut k = 0;
     for h in [false, true] {
-        for x in [false, true] {
+        for x in [0u8, 1, 2] {
             for l in 0..4usize {
                 let base = sb.join(format!("case{}", k));
                 k += 1;
@@ -364,8 +367,10 @@ pub fn run(c: &Ctx) {
                 if h {
                     e.insert("HOME".into(), format!("{}/home", b));
                 }
-                if x {
+                if x == 1 {
                     e.insert("XDG_CONFIG_HOME".into(), format!("{}/cfg", b));
+                } else if x == 2 {
+                    e.insert("XDG_CONFIG_HOME".into(), format!("{}/l2", b));
                 }
                 match l {
                     1 => {
@@ -379,7 +384,9 @@ pub fn run(c: &Ctx) {
                     },
                     _ => {},
                 }
-                let cands: Vec<String> = candidates(&e).into_iter().filter(|d| d.starts_with(&b)).collect();
+                let mut cands: Vec<String> = candidates(&e).into_iter().filter(|d| d.starts_with(&b)).collect();
+                cands.sort();
+                cands.dedup();
                 for mask in 0..(1u32 << cands.len()) {
                     let present: Vec<String> = cands.iter().enumerate().filter(|(i, _)| mask & (1 << i) != 0).map(|(_, d)| d.clone()).collect();
                     std_cases.push(CfgCase { env: e.clone(), present, stdfs: true });
